@@ -1,4 +1,4 @@
-import PbVerif.Lemmas.MsgAlg
+import PbVerif.Lemmas.MsgAlgMerge
 /-
 C07 — merge laws (model: `Pb.mergeMsg` = proto/merge.go `mergeMessage`) and their relation to
 decoding.
@@ -13,25 +13,7 @@ namespace C07
 open Pb
 open Spec (Byte)
 
-/-! ### shape of `mergeMsg` -/
-
-theorem mergeMsg_mk (S : Schema) (mi : Nat) (dfs sfs : Fields) (du su : List Byte) :
-    mergeMsg S mi (.mk dfs du) (.mk sfs su) = .mk (mergeFields S (S.msg mi) dfs sfs) (du ++ su) := by
-  rw [mergeMsg]
-
-/-- one source field: the field is skipped when the descriptor does not declare it -/
-def mergeField (S : Schema) (d : MsgD) (dst : Fields) (num : Nat) (fv : FVal) : Fields :=
-  match d.find num with
-  | none => dst
-  | some f => mergeFVal S d f dst fv
-
-/-- `mergeFields` is the left fold of `mergeField` over the source fields in stored order -/
-theorem mergeFields_cons (S : Schema) (d : MsgD) (dst : Fields) (num : Nat) (fv : FVal) (tl : Fields) :
-    mergeFields S d dst (.cons num fv tl) = mergeFields S d (mergeField S d dst num fv) tl := by
-  rw [mergeFields]; rfl
-
-theorem mergeFields_nil (S : Schema) (d : MsgD) (dst : Fields) : mergeFields S d dst .nil = dst := by
-  rw [mergeFields]
+/-! ### shape of `mergeMsg` (`mergeFields` is the left fold of `Pb.mergeField`, see `Pb.mergeFields_cons`) -/
 
 /-- unknown fields are appended -/
 theorem merge_unknown (S : Schema) (mi : Nat) (a b : Msg) :
@@ -49,13 +31,6 @@ theorem merge_empty_left (S : Schema) (mi : Nat) (m : Msg) : mergeMsg S mi Msg.e
 
 /-! ### one source field, arbitrary destination -/
 
-theorem mergeVal_scalar (S : Schema) (d : MsgD) (f : Field) (dst : Fields) (v : Val)
-    (hv : v.isKey = true) : mergeVal S d f dst v = setSingular d f dst v := by
-  cases v with
-  | num n => rw [mergeVal]; intro m h; cases h
-  | bytes b => rw [mergeVal]; intro m h; cases h
-  | msg m => simp [Val.isKey] at hv
-
 /-- **singular scalars**: a populated source scalar overwrites the destination value
 (`v` is not a message) -/
 theorem merge_singular (S : Schema) (d : MsgD) (f : Field) (dst : Fields) (v : Val)
@@ -70,16 +45,10 @@ theorem merge_singular (S : Schema) (d : MsgD) (f : Field) (dst : Fields) (v : V
 
 /-- every other field of the destination is untouched, except the other members of the oneof -/
 theorem merge_singular_other (S : Schema) (d : MsgD) (f : Field) (dst : Fields) (v : Val)
-    (hv : v.isKey = true) (j : Nat) (hj : f.num ≠ j)
-    (hoo : ∀ o, f.oneof = some o → d.otherMember o f.num j = false) :
+    (j : Nat) (hj : f.num ≠ j) (hoo : oneofOther d f j = false) :
     (mergeFVal S d f dst (.one v)).get? j = dst.get? j := by
-  have h1 : mergeFVal S d f dst (.one v) = setSingular d f dst v := by
-    rw [mergeFVal, mergeVal_scalar S d f dst v hv]
-  rw [h1, get?_setSingular]
-  simp only [hj, if_false]
-  cases ho : f.oneof with
-  | none => simp
-  | some o => simp [hoo o ho]
+  rw [mergeFVal_get?_ne S d f dst _ j hj]
+  simp [clearsF, hoo]
 
 /-- **lists** are appended (elements deep-copied) -/
 theorem merge_list (S : Schema) (d : MsgD) (f : Field) (dst : Fields) (vs : Vals)
@@ -99,49 +68,18 @@ theorem merge_list (S : Schema) (d : MsgD) (f : Field) (dst : Fields) (vs : Vals
   · intro j hj
     rw [h1, get?_appendList]; simp [hne', hj]
 
-/-- **oneof**: merging a member of oneof `o` clears every other member of `o` -/
-theorem merge_oneof (S : Schema) (d : MsgD) (f : Field) (dst : Fields) (v : Val) (o : Nat)
-    (ho : f.oneof = some o) (j : Nat) (hj : d.otherMember o f.num j = true) :
+/-- **oneof**: merging a member of a oneof (scalar or message) clears every other member -/
+theorem merge_oneof (S : Schema) (d : MsgD) (f : Field) (dst : Fields) (v : Val)
+    (j : Nat) (hj : oneofOther d f j = true) :
     (mergeFVal S d f dst (.one v)).get? j = none := by
   have hne : f.num ≠ j := by
     intro h
-    unfold MsgD.otherMember at hj
+    unfold oneofOther at hj
     split at hj
-    · simp [h] at hj
+    · rw [← h, otherMember_self] at hj; cases hj
     · cases hj
-  rw [mergeFVal]
-  cases v with
-  | num n =>
-    rw [mergeVal_scalar _ _ _ _ _ rfl, get?_setSingular]
-    simp [hne, ho, hj]
-  | bytes b =>
-    rw [mergeVal_scalar _ _ _ _ _ rfl, get?_setSingular]
-    simp [hne, ho, hj]
-  | msg m =>
-    rw [mergeVal]
-    simp only [ho, Fields.get?_set, hne, if_false, Fields.get?_clearOneof, hj, if_true]
-
-theorem subAt_clearOneof (d : MsgD) (o n : Nat) (dst : Fields) :
-    (Fields.clearOneof d o n dst).subAt n = dst.subAt n := by
-  unfold Fields.subAt
-  rw [Fields.get?_clearOneof]
-  have : d.otherMember o n n = false := by
-    unfold MsgD.otherMember
-    split <;> simp
-  simp [this]
-
-theorem mergeVal_msg (S : Schema) (d : MsgD) (f : Field) (dst : Fields) (sm : Msg) :
-    mergeVal S d f dst (.msg sm) =
-      (match f.oneof with
-       | some o => Fields.clearOneof d o f.num dst
-       | none => dst).set f.num (.one (.msg (mergeMsg S f.sub (dst.subAt f.num) sm))) := by
-  rw [mergeVal]
-  cases ho : f.oneof with
-  | none => rfl
-  | some o =>
-    simp only
-    rw [← subAt_clearOneof d o f.num dst]
-    rfl
+  rw [mergeFVal_get?_ne S d f dst _ j hne]
+  simp [clearsF, hj]
 
 /-- **submessages** are merged recursively into the existing submessage (or a new one) -/
 theorem merge_submsg (S : Schema) (d : MsgD) (f : Field) (dst : Fields) (sm : Msg) :
